@@ -275,6 +275,7 @@ C17_Q = [
     H("c17_refine_table", "EncodingRef::can_be_refined / encoding() for each of the 4 precedence states x 4 encodings vs the documented automaton (Explicit and XmlDetected are final)", ["explicit is final", "bom can be refined"], crate="enc"),
 ]
 C17_T = [
+    H("c17_detect_n7", "encoding::detect_encoding on every input of <=7 bytes vs the documented table (bytes after the signature do not matter)", ["utf-8 bom", "utf-16le signature"], crate="enc", cost=2),
 ]
 C07_T = [
     H("c07_s_k1", "deserialize struct S{a: String, b: Vec<String>} over scripted events: root + 1 solver-chosen inner event + tail, truncation anywhere", [], crate="serde", cost=9, timeout_thorough=5400, mem_gb=30),
